@@ -9,20 +9,24 @@ from vlib import log, Inconclusive, VERIF, SPEC, HARNESS, OUTROOT
 
 # clause prefixes that decide each property in the core trace specification
 CORE = {
-    'C01': dict(prefixes=['C01_'], mc_q=[('MC_c01_q', 300)], mc_t=[('MC_c01_t', 1500)],
+    'C01': dict(prefixes=['C01_', 'C06_'],   # 'whatever the physical segmentation happens to be'
+                mc_q=[('MC_c01_q', 300)], mc_t=[('MC_c01_t', 1500)],
                 fam_q=[('core', 200), ('merge', 80), ('dup', 4)], fam_t=[('core', 4000), ('merge', 1500), ('memmerge', 500), ('dup', 16)]),
     'C02': dict(prefixes=['C02_'], mc_q=[('MC_durable_q', 300)], mc_t=[('MC_durable', 1500)],
                 fam_q=[('images', 32), ('memmerge', 48), ('core', 64)], fam_t=[('images', 400), ('memmerge', 600), ('crash2', 200), ('core', 1000)]),
-    'C03': dict(prefixes=['C03_'], mc_q=[('MC_crash2_q', 300), ('MC_durable_q', 300)], mc_t=[('MC_durable', 1500), ('MC_crash2_t', 1500)],
+    'C03': dict(prefixes=['C03_', 'C02_acked_lost', 'C02_AckedDurable'],   # '... durability and this property keep holding across any number of further crashes'
+                mc_q=[('MC_crash2_q', 300), ('MC_durable_q', 300)], mc_t=[('MC_durable', 1500), ('MC_crash2_t', 1500)],
                 fam_q=[('images', 24), ('crash2', 24), ('memmerge', 32)], fam_t=[('images', 400), ('crash2', 400), ('memmerge', 600)]),
-    'C04': dict(prefixes=['C04_'], mc_q=[('MC_readers_q', 300)], mc_t=[('MC_readers_t', 1500)],
+    # C04: '... never faults, even after the files backing it were superseded' -> removal clauses about files in use count too
+    'C04': dict(prefixes=['C04_', 'C11_removed_file_in_use', 'C11_OpenHandlesHaveFiles'], mc_q=[('MC_readers_q', 300)], mc_t=[('MC_readers_t', 1500)],
                 fam_q=[('readers', 240), ('faults', 96), ('free', 48)], fam_t=[('readers', 4000), ('faults', 1500), ('free', 1000)]),
     'C05': dict(prefixes=['C05_', 'C01_RootIsAbstract', 'C01_reader'], mc_q=[('MC_linear_q', 300)], mc_t=[('MC_linear_t', 1500)],
                 fam_q=[('conc', 200), ('free', 96), ('dfs2', 1)], fam_t=[('conc', 4000), ('free', 2000), ('dfs2', 3)]),
     # C06 also counts the on-disk clauses: a reader opened on the directory must not see content changed by an in-memory merge either
-    'C06': dict(prefixes=['C06_', 'C03_EveryLoadableIsPrefix', 'C03_DiskIsPrefix', 'C03_recovered_not_prefix'], mc_q=[('MC_merge_q', 300)], mc_t=[('MC_merge_t', 1500)],
+    'C06': dict(prefixes=['C06_', 'C03_EveryLoadableIsPrefix', 'C03_DiskIsPrefix', 'C03_recovered_not_prefix', 'C01_RootIsAbstract', 'C01_reader', 'C01_UpdateUnique'], mc_q=[('MC_merge_q', 300)], mc_t=[('MC_merge_t', 1500)],
                 fam_q=[('merge', 200), ('memmerge', 64)], fam_t=[('merge', 4000), ('memmerge', 1000)]),
-    'C11': dict(prefixes=['C11_'], mc_q=[('MC_files_q', 300)], mc_t=[('MC_files_t', 1500)],
+    # C11: '... removal never disturbs an open Reader'
+    'C11': dict(prefixes=['C11_', 'C04_reader_changed', 'C04_NoUseAfterClose'], mc_q=[('MC_files_q', 300)], mc_t=[('MC_files_t', 1500)],
                 fam_q=[('files', 240)], fam_t=[('files', 4000)]),
     'C14': dict(prefixes=['C14_', 'C02_', 'C03_', 'C01_RootIsAbstract', 'C04_'], mc_q=[('MC_faults_q', 300)], mc_t=[('MC_faults_t', 1500)],
                 fam_q=[('faults', 160)], fam_t=[('faults', 3000)]),
